@@ -14,18 +14,29 @@ instructions` over a real `bytecode.BasicBlock`) instruments
   * every basic block of real code objects (generated programs, stdlib modules) taken from pynguin's own
     `CFG.from_bytecode`,
 and the resulting block layout (where every `track_line_visit(id)` snippet sits) and the line registry are
-compared with `Driver/C02.lean`.  Then random execution prefixes (block, k original instructions) are
-replayed over the REAL instrumented blocks with the REAL tracer (`track_line_visit`), and
-`covered_line_ids`, `lineids_to_linenos`, `compute_line_coverage(_fitness_is_covered)` are compared.
+compared with `Driver/C02.lean`.  Then random execution HISTORIES on one tracer are replayed over the REAL
+instrumented blocks with the REAL proxy (`InstrumentationExecutionTracer` → `ExecutionTracer` → trace): block
+prefixes (block, k original instructions) interleaved with `enable / disable`, `temporarily_disable /
+temporarily_enable` (through the proxy), `with tracer:` enter / exit, `init_trace / store_import_trace /
+reset`, a swapped delegate, and `executed_compare / bool / in_presence_predicate` calls on objects whose
+`__eq__ / __lt__ / __contains__ / __bool__ / __len__ …` run instrumented blocks (the branch tracer's own
+evaluation).  `covered_line_ids` before every new trace and at the end, aborted calls, the enabled / entered
+flags, `lineids_to_linenos`, `compute_line_coverage(_fitness_is_covered)` are compared with `Model/LineTracer.lean`.
 
 Oracle (independent of the model): the property in its own words, evaluated on the implementation's
-output — reported (file, line) pairs == lines of the executed original instructions that have an integer
-line, are not excluded and are not one of the (hand-listed, trusted) opcodes CPython gives no line event.
+output, execution by execution — the (file, line) pairs of a trace == the lines of the import trace it was
+started from + lines of the original instructions the program executed while the tracer was enabled inside
+`with tracer:` that have an integer line, are not excluded and are not one of the (hand-listed, trusted)
+opcodes CPython gives no line event.
 
 End-to-end (`extra_checks`, failing-input search): generated programs (branches, loops, comprehensions,
 generators, try/except/finally, with, match, closures, classes) are imported through pynguin's import hook
 with LINE (and BRANCH+LINE) instrumentation and run; the reported lines of the import and of every call
 are compared with `sys.monitoring` LINE events of the same import / call on the uninstrumented module.
+Plus generated modules with classes defining comparison / truth / membership / size dunder methods (one-line
+bodies) used in predicates, one-line functions and properties, with call sequences that repeat a function;
+every call is its own execution on the ONE tracer, started with `reset()` or — as the executor does — with
+`init_trace()` after `store_import_trace()` (then the import lines belong to every execution).
 Runs in a child interpreter so that a broken instrumentation that crashes CPython is reported, not fatal.
 """
 from __future__ import annotations
@@ -55,6 +66,12 @@ SYN_OPS = {"LOAD_FAST": "x", "STORE_FAST": "x", "LOAD_CONST": 1, "POP_TOP": None
 SYN_WEIGHTS = (["LOAD_FAST"] * 6 + ["STORE_FAST"] * 3 + ["LOAD_CONST"] * 3 + ["POP_TOP"] * 4 + ["NOP"] * 2
                + ["RETURN_VALUE", "CALL", "CALL", "BINARY_OP", "PUSH_NULL"]
                + ["RESUME"] * 2 + ["END_FOR"] * 2 + ["RETURN_GENERATOR"])
+
+#: tracer operations of a script besides block visits ("v") and predicate evaluations ("p")
+TRACER_OPS = ("enable", "disable", "tdEnter", "teEnter", "cmExit", "enter", "exit",
+              "initTrace", "storeImportTrace", "reset", "setFresh")
+#: the operations that install a new trace
+STARTS = ("initTrace", "storeImportTrace", "reset", "setFresh")
 
 GENERATED = vcommon.LEAN / "PynguinModel" / "Generated" / "C02Opcodes.lean"
 
@@ -114,6 +131,113 @@ def _layout_of_block(block, pre_art_ids):
             out.append(["o", e.name, ln if isinstance(ln, int) else (None if ln is None else repr(ln))])
     flush()
     return out
+
+
+class _Replay:
+    """Drives the REAL `InstrumentationExecutionTracer` (what the injected bytecode and pynguin's executor call)
+    through a script; block visits call `track_line_visit` exactly where the real instrumented block does."""
+
+    def __init__(self, sp, layout):
+        self.sp = sp
+        self.proxy = sp.instrumentation_tracer
+        self.layout = layout
+        self.stack = []      # open temporarily_disable / temporarily_enable context managers
+        self.calls = []      # ids handed to track_line_visit by block events
+        self.snaps = []      # covered_line_ids before every new trace
+        self.aborted = 0
+        self.nth = 0
+
+    def entered(self):
+        import threading
+        return self.proxy.tracer._current_thread_identifier == threading.current_thread().ident  # noqa: SLF001
+
+    def visit(self, v, record):
+        from pynguin.utils.exceptions import TracingAbortedException
+        ci, bi, k = v
+        left = k
+        for item in self.layout[ci][bi]:
+            if left == 0:
+                break
+            if isinstance(item, list) and item[0] == "t":
+                if record:
+                    self.calls.append(item[1])
+                try:
+                    self.proxy.track_line_visit(item[1])  # what the inserted snippet calls
+                except TracingAbortedException:
+                    self.aborted += 1
+            elif isinstance(item, list) and item[0] == "o":
+                left -= 1
+
+    def predicate(self, ev):
+        """`proxy.executed_*_predicate` on objects whose dunder methods are instrumented code of the module: the
+        tracer evaluates the comparison / truth value / membership itself, which runs the given blocks."""
+        from pynguin.instrumentation import PynguinCompare as PC
+        from pynguin.utils.exceptions import TracingAbortedException
+        rep, vs, how = self, ev["vs"], ev["how"] % 8
+        self.nth += 1
+        res = (self.nth + how) % 3 != 0
+
+        def body(*_a):
+            for v in vs:
+                rep.visit(v, False)
+            return res
+
+        name, cmp_op = [("__eq__", PC.EQ), ("__lt__", PC.LT), ("__contains__", PC.IN), ("__bool__", None),
+                        ("__len__", None), ("__contains__", "presence"), ("__ne__", PC.NE), ("__ge__", PC.GE)][how]
+        ns = {name: (lambda self_, *a: int(body())) if name == "__len__" else (lambda self_, *a: body())}
+        if name == "__eq__":
+            ns["__hash__"] = lambda self_: 7
+        cls = type("Sut", (), ns)
+        a, b = cls(), cls()
+        pid = 1000 + self.nth
+        try:
+            if cmp_op is None:
+                self.proxy.executed_bool_predicate(a, pid)
+            elif cmp_op == "presence":
+                self.proxy.executed_in_presence_predicate(b, a, pid)
+            elif cmp_op is PC.IN:
+                self.proxy.executed_compare_predicate(b, a, pid, cmp_op)
+            else:
+                self.proxy.executed_compare_predicate(a, b, pid, cmp_op)
+        except TracingAbortedException:
+            self.aborted += 1
+
+    def event(self, ev):
+        from pynguin.instrumentation.tracer import ExecutionTracer
+        e, p = ev["e"], self.proxy
+        if e in STARTS:
+            self.snaps.append(list(p.get_trace().covered_line_ids))
+        if e == "blk":
+            self.visit(ev["v"], True)
+        elif e == "predicate":
+            self.predicate(ev)
+        elif e == "enable":
+            p.enable()
+        elif e == "disable":
+            p.disable()
+        elif e in ("tdEnter", "teEnter"):
+            # the executor and the observers use the proxy's context managers (they may span a swap of the
+            # delegate); the delegate's own ones are used by its predicate methods only (see `predicate`)
+            cm = p.temporarily_disable() if e == "tdEnter" else p.temporarily_enable()
+            cm.__enter__()
+            self.stack.append(cm)
+        elif e == "cmExit":
+            if self.stack:
+                self.stack.pop().__exit__(None, None, None)
+        elif e == "enter":
+            p.__enter__()
+        elif e == "exit":
+            p.__exit__(None, None, None)
+        elif e == "initTrace":
+            p.init_trace()
+        elif e == "storeImportTrace":
+            p.store_import_trace()
+        elif e == "reset":
+            p.reset()
+        elif e == "setFresh":
+            p.tracer = ExecutionTracer()
+        else:
+            raise ValueError(e)
 
 
 class _Cover:
@@ -206,8 +330,12 @@ def e2e_plain(src, calls):
     return steps, sorted(k), gens
 
 
-def e2e_instrumented(src, calls, metrics):
-    """What pynguin reports: covered line ids -> (same file?, line number) after the import / each call."""
+def e2e_instrumented(src, calls, metrics, start="reset"):
+    """What pynguin reports: covered line ids -> (same file?, line number) after the import / each call.
+
+    start = "reset": every call starts with `tracer.reset()` (a trace of this call alone);
+    start = "init": what the executor does — `store_import_trace()` once after the import, `init_trace()` before
+    every call (a trace of the import plus this call)."""
     import instr as hinstr
     from pynguin.ga import fitness_metrics as fm
     mod, sp, d = hinstr.instrument_module(src, metrics=tuple(metrics))
@@ -238,8 +366,13 @@ def e2e_instrumented(src, calls, metrics):
                     "res": res}
 
         steps = [snap(["ok", "import"])]
+        if start == "init":
+            tr.store_import_trace()
         for fn, args in calls:
-            tr.reset()  # a fresh trace without the import trace: exactly this call
+            if start == "init":
+                tr.init_trace()  # a fresh trace that holds the import trace
+            else:
+                tr.reset()  # a fresh trace without the import trace: exactly this call
             with tr:
                 res = _call(mod, fn, args)
             steps.append(snap(res))
@@ -254,7 +387,7 @@ def e2e_instrumented(src, calls, metrics):
 
 def e2e_run(case):
     try:
-        steps_i, existing = e2e_instrumented(case["src"], case["calls"], case["metrics"])
+        steps_i, existing = e2e_instrumented(case["src"], case["calls"], case["metrics"], case.get("start", "reset"))
     except Exception as e:  # noqa: BLE001 - instrumentation failed: reported as such by the parent
         import traceback
         return {"instr_error": f"{type(e).__name__}: {e}"[:400], "tb": traceback.format_exc()[-1200:]}
@@ -277,17 +410,22 @@ def child_main(inp, outp):
 class C02(PropertyCheck):
     prop_id = "C02"
     prop_modules = ["PynguinModel.Props.C02"]
-    extra_modules = ["PynguinModel.Generated.C02Opcodes", "PynguinModel.Model.LineInstr"]
+    extra_modules = ["PynguinModel.Generated.C02Opcodes", "PynguinModel.Model.LineInstr",
+                     "PynguinModel.Model.LineTracer"]
     driver = "Driver/C02.lean"
     n_quick = 400
     n_thorough = 4000
     n_search = 1500
     e2e_quick = 8
     e2e_thorough = 150
+    e2e_dunder_quick = 5
+    e2e_dunder_thorough = 60
     rule = ("syn: 1-3 code objects (1-2 files), 1-4 blocks of 1-12 entries (pseudo / artificial / original with "
-            "line in a small range, None, excluded lines, RESUME / END_FOR / RETURN_GENERATOR), 0-6 execution "
-            "prefixes; real: all basic blocks (pynguin's CFG) of the code objects of a generated module or of a "
-            "stdlib module, random excluded lines, random prefixes; non-trivial = distinct case whose real "
+            "line in a small range, None, excluded lines, RESUME / END_FOR / RETURN_GENERATOR), a history of 0-30 "
+            "events on one tracer (block prefixes - earlier ones repeated on purpose -, enable/disable, "
+            "temporarily_disable/_enable, with-tracer enter/exit, init_trace/store_import_trace/reset/new delegate, "
+            "predicate evaluations running blocks); real: all basic blocks (pynguin's CFG) of the code objects of a generated module or of a "
+            "stdlib module, random excluded lines, random histories; non-trivial = distinct case whose real "
             "instrumented layout has >= 2 trackers, >= 1 original instruction without tracker and >= 1 executed "
             "prefix that reports a line; e2e (extra_checks): distinct (module, call) executions whose reported "
             "lines are a non-empty proper subset of the registered lines")
@@ -298,12 +436,19 @@ class C02(PropertyCheck):
         "CPython 3.12 reports no LINE event for RESUME, RETURN_GENERATOR and END_FOR and for instructions "
         "without a line number (trusted; validated by the end-to-end comparison with sys.monitoring)",
         "the excluded-lines predicate (should_cover_line) is a parameter (property C08)",
+        "one thread: `entered` stands for _current_thread_identifier == the running thread (threads: C32); an "
+        "execution's trace starts from the import trace when it is started with init_trace (the import is part of "
+        "every execution, as in pynguin's executor)",
     ]
     trusted_base_extra = [
         "Model/LineInstr.lean mirrors LineCoverageInstrumentation.visit_node/should_instrument_line/visit_line "
         "(python3_10/11/12), BasicBlockNode.instrumentation_original_instructions, SubjectProperties."
         "register_line/lineids_to_linenos, ExecutionTracer.track_line_visit, compute_line_coverage("
         "_fitness_is_covered)",
+        "Model/LineTracer.lean mirrors InstrumentationExecutionTracer (proxy, forwards everything) -> "
+        "ExecutionTracer._early_return/check/track_line_visit, enable/disable/temporarily_disable/temporarily_enable, "
+        "__enter__/__exit__/stop, init_trace/store_import_trace/reset, ExecutionTrace.merge (covered_line_ids), "
+        "executed_*_predicate (own evaluation inside temporarily_disable)",
         "translator harness/c02.py:translate (reads should_instrument_line of the live adapter for every opcode "
         "name of dis.opmap)",
         "sys.monitoring LINE events as ground truth of 'the interpreter executed the line'",
@@ -381,11 +526,51 @@ class C02(PropertyCheck):
                 out.append({"k": "orig", "name": rng.choice(SYN_WEIGHTS), "line": line})
         return out
 
+    def _gen_script(self, rng, n):
+        """An execution history on ONE tracer: block visits interleaved with what the executor, the branch
+        tracer and the observers do to the tracer (enable / disable, temporarily_disable / _enable,
+        `with tracer:`, new traces, swapping the delegate, predicate evaluations that run code of the module).
+        Earlier visits are repeated on purpose (the same line again after a disabled phase / in the next trace)."""
+        trip = lambda: [rng.randrange(1 << 20), rng.randrange(1 << 20), rng.randrange(1 << 20)]  # noqa: E731
+        evs, pool = [["enter"]], []
+
+        def visit():
+            t = rng.choice(pool) if pool and rng.random() < 0.45 else trip()
+            pool.append(t)
+            return t
+
+        for _ in range(n):
+            r = rng.random()
+            if r < 0.50:
+                evs.append(["v", *visit()])
+            elif r < 0.62:
+                evs.append(["p", rng.randrange(8), [visit() for _ in range(rng.randint(1, 2))]])
+                if rng.random() < 0.6:  # the program evaluates the same comparison itself
+                    evs.append(["v", *pool[-1]])
+            elif r < 0.70:
+                evs.append([rng.choice(["disable", "enable", "enable"])])
+            elif r < 0.80:
+                evs.append([rng.choice(["tdEnter", "tdEnter", "teEnter", "cmExit", "cmExit"])])
+            elif r < 0.85:
+                evs.append([rng.choice(["enter", "exit"])])
+            else:
+                if rng.random() < 0.7:
+                    evs.append(["exit"])
+                evs.append([rng.choice(["initTrace"] * 4 + ["reset"] * 3 + ["storeImportTrace", "setFresh"])])
+                if rng.random() < 0.85:
+                    evs.append(["enter"])
+                if pool and rng.random() < 0.6:  # the next execution starts where the last one stopped
+                    evs.append(["v", *pool[-1]])
+        return evs
+
     def gen_case(self, rng):
         kind = rng.choice(["syn"] * 14 + ["real"] * 2 + ["stdlib"] * 4)
         self.count("kind:" + kind)
-        visits = [[rng.randrange(1 << 20), rng.randrange(1 << 20), rng.randrange(1 << 20)]
-                  for _ in range(rng.randint(0, 6))]
+        if rng.random() < 0.25:  # one plain execution: `with tracer:` around block visits only
+            script = [["enter"]] + [["v", rng.randrange(1 << 20), rng.randrange(1 << 20), rng.randrange(1 << 20)]
+                                    for _ in range(rng.randint(0, 6 if kind == "syn" else 16))]
+        else:
+            script = self._gen_script(rng, rng.randint(0, 14) if kind == "syn" else rng.randint(6, 24))
         if kind == "syn":
             files = rng.choice([["a.py"], ["a.py"], ["a.py", "b.py"]])
             lines = list(range(1, rng.choice([3, 4, 6, 9])))
@@ -394,20 +579,17 @@ class C02(PropertyCheck):
                 cos.append({"file": rng.choice(files),
                             "nocover": sorted(rng.sample(lines, rng.choice([0, 0, 0, 1, 2]) % (len(lines) + 1))),
                             "blocks": [self._syn_block(rng, lines) for _ in range(rng.randint(1, 4))]})
-            return {"kind": "syn", "cos": cos, "visits": visits}
+            return {"kind": "syn", "cos": cos, "script": script}
         if kind == "real":
             import progen
             src = progen.gen_module(rng, n_funcs=rng.randint(1, 2))
             nl = src.count("\n")
             nocover = sorted(rng.sample(range(1, nl + 1), rng.choice([0, 0, 3, 8])))
-            return {"kind": "real", "src": src, "nocover": nocover, "visits": visits + [
-                [rng.randrange(1 << 20), rng.randrange(1 << 20), rng.randrange(1 << 20)] for _ in range(10)]}
+            return {"kind": "real", "src": src, "nocover": nocover, "script": script}
         import progen
         mod = rng.choice(progen.STDLIB_MODULES)
         return {"kind": "stdlib", "module": mod, "start": rng.randrange(1 << 20), "count": rng.randint(3, 10),
-                "nocover": sorted(rng.sample(range(1, 400), rng.choice([0, 0, 20]))),
-                "visits": visits + [[rng.randrange(1 << 20), rng.randrange(1 << 20), rng.randrange(1 << 20)]
-                                    for _ in range(10)]}
+                "nocover": sorted(rng.sample(range(1, 400), rng.choice([0, 0, 20]))), "script": script}
 
     # -- materialisation: explicit code objects / blocks / visits of a case ------------------------
     def _real_cfgs(self, case):
@@ -449,19 +631,35 @@ class C02(PropertyCheck):
             for fname, cfg in self._real_cfgs(case):
                 blocks = [_entries_of_block(n.basic_block) for n in cfg.basic_block_nodes]
                 cos.append({"file": fname, "nocover": case["nocover"], "blocks": blocks})
-        visits = []
-        for a, b, c in case["visits"]:
+        def visit(a, b, c):
             if not cos:
-                break
+                return None
             ci = a % len(cos)
             blocks = cos[ci]["blocks"]
             if not blocks:
-                continue
+                return None
             bi = b % len(blocks)
             norig = sum(1 for e in blocks[bi] if e["k"] == "orig")
-            visits.append([ci, bi, c % (norig + 2)])
-        m = {"cos": cos, "visits": visits}
-        if len(self._mat) > 64:
+            return [ci, bi, c % (norig + 2)]
+
+        raw = case.get("script")
+        if raw is None:  # cases written before the tracer was part of the model: one `with tracer:` execution
+            raw = [["enter"]] + [["v", *v] for v in case["visits"]]
+        script = []
+        for ev in raw:
+            if ev[0] == "v":
+                v = visit(*ev[1:])
+                if v is not None:
+                    script.append({"e": "blk", "v": v})
+            elif ev[0] == "p":
+                vs = [v for v in (visit(*t) for t in ev[2]) if v is not None]
+                script.append({"e": "predicate", "vs": vs, "how": ev[1]})
+            elif ev[0] in TRACER_OPS:
+                script.append({"e": ev[0]})
+            else:
+                raise ValueError(f"unknown script event {ev!r}")
+        m = {"cos": cos, "script": script}
+        if len(self._mat) > 600:  # a quick run keeps all its cases (impl, model line, oracle use the same view)
             self._mat.clear()
         self._mat[key] = (case, m)
         return m
@@ -543,23 +741,15 @@ class C02(PropertyCheck):
         for lid, meta in sp.existing_lines.items():
             ln = meta.line_number
             registry.append([lid, meta.file_name, ln if isinstance(ln, int) or ln is None else repr(ln)])
-        # replay the execution prefixes over the real instrumented blocks with the real tracer
-        tracer = sp.instrumentation_tracer
-        tracer.reset()
-        calls = []
-        with tracer:
-            for ci, bi, k in m["visits"]:
-                left = k
-                for item in layout[ci][bi]:
-                    if left == 0:
-                        break
-                    if isinstance(item, list) and item[0] == "t":
-                        calls.append(item[1])
-                        tracer.track_line_visit(item[1])  # what the inserted snippet calls
-                    elif isinstance(item, list) and item[0] == "o":
-                        left -= 1
-        trace = tracer.get_trace()
+        # replay the history over the real instrumented blocks with the real proxy / tracer
+        rep = _Replay(sp, layout)
+        for ev in m["script"]:
+            rep.event(ev)
+        trace = sp.instrumentation_tracer.get_trace()
         covered = list(trace.covered_line_ids)
+        rep.snaps.append(covered)
+        calls = rep.calls
+        tracer = sp.instrumentation_tracer
         metas = []
         for lid in covered:
             meta = sp.existing_lines.get(lid)
@@ -576,6 +766,8 @@ class C02(PropertyCheck):
         except AssertionError:
             cov = {"err": "AssertionError"}
         return {"blocks": layout, "registry": registry, "calls": calls, "covered": covered, "metas": metas,
+                "snaps": rep.snaps, "aborted": rep.aborted, "enabled": not tracer.is_disabled(),
+                "entered": rep.entered(), "open": len(rep.stack),
                 "linenos": linenos, "coverage_float": cov,
                 "all": bool(fm.compute_line_coverage_fitness_is_covered(trace, sp))}
 
@@ -585,7 +777,8 @@ class C02(PropertyCheck):
             return None
         m = self._materialise(case)
         return vcommon.jdump({"cos": [{"file": c["file"], "nocover": c["nocover"], "blocks": c["blocks"]}
-                                      for c in m["cos"]], "visits": m["visits"]})
+                                      for c in m["cos"]],
+                              "script": [{k: v for k, v in ev.items() if k != "how"} for ev in m["script"]]})
 
     def compare(self, case, io, mo):
         if "blocks" not in mo or "err" in io:
@@ -595,7 +788,9 @@ class C02(PropertyCheck):
         if [[f, l] for _, f, l in io["registry"]] != mo["registry"] or \
                 [i for i, _, _ in io["registry"]] != list(range(len(io["registry"]))):
             return False
-        if io["calls"] != mo["calls"] or io["covered"] != mo["covered"]:
+        if io["calls"] != mo["calls"] or io["covered"] != mo["covered"] or io["snaps"] != mo["snaps"]:
+            return False
+        if any(io[k] != mo[k] for k in ("aborted", "enabled", "entered", "open")):
             return False
         if io["metas"] != mo["metas"] or io["linenos"] != mo["linenos"] or io["all"] != mo["all"]:
             return False
@@ -612,11 +807,12 @@ class C02(PropertyCheck):
         if "err" in io:
             return [Failure(sig("adapter-raises", err=io["err"]),
                             f"line instrumentation of a valid basic block fails: {io['err']} ({io['where']}): {io['msg']}")]
-        expected = set()
         carriers = {}
-        for ci, bi, k in m["visits"]:
-            co = m["cos"][ci]
-            left = k
+
+        def lines_of(v):
+            """the coverable lines the interpreter executes when the first k original instructions of a block run"""
+            ci, bi, k = v
+            co, out, left = m["cos"][ci], set(), k
             for e in co["blocks"][bi]:
                 if left == 0:
                     break
@@ -624,41 +820,98 @@ class C02(PropertyCheck):
                     continue
                 left -= 1
                 if isinstance(e["line"], int) and e["line"] not in co["nocover"] and e["name"] not in NOLINE:
-                    expected.add((co["file"], e["line"]))
+                    out.add((co["file"], e["line"]))
                 carriers.setdefault((co["file"], e["line"]), set()).add(e["name"])
+            return out
+
+        # The property, execution by execution: a trace holds the lines of the import trace it was started from
+        # plus the lines the program executed while the tracer was enabled inside `with tracer:`.  What the
+        # tracer runs on its own (predicate evaluation) is no execution of the program.
+        enabled, entered, stack = True, False, []
+        base, cur, expected_snaps = set(), set(), []
+        for ev in m["script"]:
+            e = ev["e"]
+            if e in STARTS:
+                expected_snaps.append(set(cur))
+            if e == "blk":
+                ls = lines_of(ev["v"])
+                if enabled and entered:
+                    cur |= ls
+            elif e == "predicate":
+                for v in ev["vs"]:
+                    lines_of(v)
+            elif e in ("enable", "disable"):
+                enabled = e == "enable"
+            elif e == "tdEnter":
+                stack.append("enable" if enabled else None)
+                enabled = False
+            elif e == "teEnter":
+                stack.append(None if enabled else "disable")
+                enabled = True
+            elif e == "cmExit":
+                todo = stack.pop() if stack else None
+                if todo is not None:
+                    enabled = todo == "enable"
+            elif e in ("enter", "exit"):
+                entered = e == "enter"
+            elif e == "initTrace":
+                cur = set(base)
+            elif e == "storeImportTrace":
+                base = set(cur)
+            elif e == "reset":
+                base, cur = set(), set()
+            elif e == "setFresh":
+                base, cur, enabled, entered = set(), set(), True, False
+        expected_snaps.append(set(cur))
         files = {c["file"] for c in m["cos"]}
+        by_id = {lid: (f, l) for lid, f, l in io["registry"]}
+        short = [[ev["e"]] + ([ev["v"]] if "v" in ev else [ev["vs"]] if "vs" in ev else []) for ev in m["script"]]
+        if len(io["snaps"]) != len(expected_snaps):
+            fs.append(Failure(sig("trace-count"), f"{len(io['snaps'])} traces for {len(expected_snaps)} executions"))
         reported = set()
-        for meta in io["metas"]:
-            if meta is None:
-                fs.append(Failure(sig("unregistered-id"), "a covered line id is not in existing_lines"))
-                continue
-            reported.add((meta[0], meta[1]))
-            if meta[0] not in files:
-                fs.append(Failure(sig("foreign-file"), f"reported line {meta} is not a line of an instrumented file"))
-        for f, l in sorted(reported - expected, key=str):
-            if l is None:
-                cls = "line-none"
-            elif carriers.get((f, l), set()) & NOLINE and not (carriers.get((f, l), set()) - NOLINE):
-                cls = "only-noline-opcodes"
-            elif any(l in c["nocover"] for c in m["cos"] if c["file"] == f):
-                cls = "excluded-line"
-            else:
-                cls = "other"
-            fs.append(Failure(sig("reported-not-executed", line=cls),
-                              f"line {l!r} of {f} is reported covered but none of the executed instructions "
-                              f"{sorted(carriers.get((f, l), []))} makes the interpreter execute that line "
-                              f"(visits {m['visits']})", detail={"reported": sorted(reported, key=str),
-                                                                 "expected": sorted(expected)}))
-        for f, l in sorted(expected - reported):
-            fs.append(Failure(sig("executed-not-reported"),
-                              f"line {l} of {f} was executed (visits {m['visits']}) but is not reported covered",
-                              detail={"reported": sorted(reported, key=str), "expected": sorted(expected)}))
+        for n, (ids, expected) in enumerate(zip(io["snaps"], expected_snaps)):
+            reported = set()
+            for lid in ids:
+                if lid not in by_id:
+                    fs.append(Failure(sig("unregistered-id"), "a covered line id is not in existing_lines"))
+                    continue
+                reported.add(by_id[lid])
+                if by_id[lid][0] not in files:
+                    fs.append(Failure(sig("foreign-file"),
+                                      f"reported line {by_id[lid]} is not a line of an instrumented file"))
+            where = f"trace {n + 1} of {len(expected_snaps)} of the history {short}"
+            for f, l in sorted(reported - expected, key=str):
+                if l is None:
+                    cls = "line-none"
+                elif carriers.get((f, l), set()) & NOLINE and not (carriers.get((f, l), set()) - NOLINE):
+                    cls = "only-noline-opcodes"
+                elif any(l in c["nocover"] for c in m["cos"] if c["file"] == f):
+                    cls = "excluded-line"
+                elif (f, l) in set().union(*expected_snaps):
+                    cls = "not-in-this-execution"
+                else:
+                    cls = "other"
+                fs.append(Failure(sig("reported-not-executed", line=cls),
+                                  f"line {l!r} of {f} is reported covered but none of the instructions "
+                                  f"{sorted(carriers.get((f, l), []))} the program executed while the tracer was "
+                                  f"recording makes the interpreter execute that line ({where})",
+                                  detail={"reported": sorted(reported, key=str), "expected": sorted(expected)}))
+            for f, l in sorted(expected - reported):
+                fs.append(Failure(sig("executed-not-reported"),
+                                  f"line {l} of {f} was executed while the tracer was enabled and entered but is not "
+                                  f"reported covered ({where})",
+                                  detail={"reported": sorted(reported, key=str), "expected": sorted(expected)}))
+            if fs:
+                break
+        if [tuple(x) if x is not None else None for x in io["metas"]] != [by_id.get(i) for i in io["covered"]]:
+            fs.append(Failure(sig("metas-differ"), "existing_lines[id] differs from the registry listing"))
         if isinstance(io["linenos"], dict):
             fs.append(Failure(sig("linenos-raises", err=io["linenos"]["err"]),
                               f"lineids_to_linenos raised {io['linenos']['err']}"))
-        elif set(map(str, io["linenos"])) != {str(l) for _, l in reported}:
+        elif set(map(str, io["linenos"])) != {str(by_id[i][1]) for i in io["covered"] if i in by_id}:
             fs.append(Failure(sig("linenos-differ"),
-                              f"lineids_to_linenos gives {io['linenos']}, the registry says {sorted(reported, key=str)}"))
+                              f"lineids_to_linenos gives {io['linenos']}, the registry says "
+                              f"{sorted((by_id[i] for i in io['covered'] if i in by_id), key=str)}"))
         return fs[:4]
 
     def classify(self, case, io):
@@ -694,13 +947,82 @@ class C02(PropertyCheck):
             calls.append(["lambda a: K0(a).get()", [rng.choice([-1, 0, 2])]])
         calls.append(["lambda v: _Ctx(v).__enter__()", [1]])
         return {"kind": "e2e", "src": src, "calls": calls,
-                "metrics": rng.choice([["LINE"], ["LINE"], ["BRANCH", "LINE"]])}
+                "metrics": rng.choice([["LINE"], ["LINE"], ["BRANCH", "LINE"]]),
+                "start": rng.choice(["reset", "reset", "init"])}
+
+    def _gen_e2e_dunder(self, rng):
+        """A module whose classes define comparison / truth / membership / size dunder methods (mostly one-line
+        bodies) and functions with predicates on such objects, plus one-line functions and properties; the calls
+        repeat functions so that an execution starts on the line the previous one ended on.  With BRANCH+LINE the
+        branch tracer evaluates every predicate itself (tracing disabled) before the program does."""
+        pool = {"__eq__": "self.v == other.v", "__ne__": "self.v != other.v", "__lt__": "self.v < other.v",
+                "__le__": "self.v <= other.v", "__gt__": "self.v > other.v", "__ge__": "self.v >= other.v",
+                "__contains__": "other == self.v or other == self.v + 1", "__bool__": "self.v > 0",
+                "__len__": "abs(self.v) % 4"}
+        uses = {"__eq__": "W(a) == W(b)", "__ne__": "W(a) != W(b)", "__lt__": "W(a) < W(b)", "__le__": "W(a) <= W(b)",
+                "__gt__": "W(a) > W(b)", "__ge__": "W(a) >= W(b)", "__contains__": "a in W(b)", "__bool__": "W(a)",
+                "__len__": "W(b)"}
+        lines, calls, fns = [], [], []
+        for ci in range(rng.randint(1, 2)):
+            w = f"W{ci}"
+            names = rng.sample(sorted(pool), rng.randint(2, 5))
+            lines += [f"class {w}:", "    def __init__(self, v):", "        self.v = v", ""]
+            for nm in names:
+                arg = "" if nm in ("__bool__", "__len__") else ", other"
+                lines.append(f"    def {nm}(self{arg}):")
+                if rng.random() < 0.25:
+                    lines.append(f"        r = {pool[nm]}")
+                    lines.append("        return r")
+                else:
+                    lines.append(f"        return {pool[nm]}")
+                lines.append("")
+            if "__eq__" in names:
+                lines += ["    def __hash__(self):", "        return hash(self.v)", ""]
+            lines += ["    @property", "    def val(self):", "        return self.v", "", ""]
+            for fi, nm in enumerate(names):
+                if nm == "__len__" and "__bool__" in names:
+                    continue  # truth goes through __bool__; __len__ would only be run by the tracer's distance
+                fn = f"f{ci}_{fi}"
+                pred = uses[nm].replace("W(", w + "(")
+                shape = rng.randrange(6)
+                if shape == 0:
+                    body = [f"    if {pred}:", "        return 1", "    return 0"]
+                elif shape == 1:
+                    body = [f"    if not {pred}:", "        a += 1", "    return a"]
+                elif shape == 2:
+                    body = ["    n = 0", f"    while {pred} and n < 3:", "        a += 1", "        n += 1", "    return n"]
+                elif shape == 3:
+                    body = [f"    return 1 if {pred} else 2"]
+                elif shape == 4:
+                    body = [f"    r = [k for k in range(b, b + 2) if {pred.replace('(a)', '(k)').replace('a in', 'k in')}]",
+                            "    return len(r)"]
+                else:
+                    other = uses[rng.choice(names)].replace("W(", w + "(")
+                    body = [f"    if {pred} and {other}:", "        return 2", f"    elif {pred} or {other}:",
+                            "        return 1", "    return 0"]
+                lines += [f"def {fn}(a, b):"] + body + ["", ""]
+                fns.append(fn)
+            lines += [f"def get{ci}(x):", f"    return {w}(x).val", "", ""]
+            fns.append(f"get{ci}")
+        lines += ["def ident(a, b=0):", "    return a", ""]
+        fns.append("ident")
+        for _ in range(rng.randint(6, 10)):
+            fn = rng.choice(fns)
+            for _ in range(rng.choice([1, 2, 2, 3])):  # the same function again: starts where the last call ended
+                calls.append([fn, [rng.randint(-1, 3), rng.randint(-1, 3)] if fn.startswith("f") or fn == "ident"
+                              else [rng.randint(-1, 3)]])
+        return {"kind": "e2e", "src": "\n".join(lines), "calls": calls,
+                "metrics": rng.choice([["BRANCH", "LINE"], ["BRANCH", "LINE"], ["BRANCH", "LINE"], ["LINE"]]),
+                "start": rng.choice(["reset", "init"])}
 
     def _start_e2e(self):
         n = int(os.environ.get("VERIF_E2E", self.e2e_quick if self.tier == "quick" else self.e2e_thorough))
         rng = random.Random(self.seed * 7919 + 2)
         cases = [c for c in PropertyCheck.corpus(self) if c.get("kind") == "e2e"]
         cases += [self._gen_e2e(rng) for _ in range(n)]
+        nd = int(os.environ.get("VERIF_E2E_DUNDER", self.e2e_dunder_quick if self.tier == "quick"
+                                else self.e2e_dunder_thorough))
+        cases += [self._gen_e2e_dunder(rng) for _ in range(nd)]
         self._e2e_cases = cases
         self._tmp = tempfile.mkdtemp(prefix="verif_c02_")
         self._child = self._spawn(cases, 0)
@@ -758,7 +1080,7 @@ class C02(PropertyCheck):
 
     def _e2e_oracle(self, case, out):
         sig = lambda cls, **kw: dict({"kind": "e2e", "class": cls}, **kw)  # noqa: E731
-        short = {"metrics": case["metrics"]}
+        short = {"metrics": case["metrics"], "start": case.get("start", "reset")}
         if "crash" in out:
             return [Failure(sig("instrumented-module-crashes"),
                             f"running the line-instrumented module kills the interpreter (rc={out['crash']})",
@@ -777,6 +1099,9 @@ class C02(PropertyCheck):
                 fs.append(Failure(sig("foreign-file"), f"{what}: a reported line belongs to another file", detail=short))
             rep = {ln for _, ln in si["metas"]}
             exe = set(sp_["lines"]) & coverable
+            if k > 0 and case.get("start", "reset") == "init":
+                # the executor's traces start from the import trace: the import is part of every execution
+                exe |= set(out["plain"][0]["lines"]) & coverable
             self.count("e2e:step")
             if set(sp_["lines"]) - coverable:
                 self.count("e2e:line-event-outside-coverable")
